@@ -24,6 +24,10 @@ CHECKS = {
    technique="SMT (z3 QF_ABV) equivalence between the real mapper's result for a load/store program (loaded values with their mods replayed, final memory) and a z3-Array byte-level execution, for all pointer/register/memory values",
    text="Bounded translation validation: for every enumerated/seeded load-store program (<=6 accesses, 3 pointers, sizes 8..64, both endiannesses, 4 aliasing/memtrace settings) each loaded register and the final memory at a universally quantified address are proven equal to the byte-level reference for ALL pointer values - equal, overlapping or disjoint (array theory decides) - or a model is replayed as (concrete state >> map) on the real code.",
    note="trusted: z3, vf/termsmt.T (mods replay, map entries as ordered stores); assumptions: no access wraps 2^64; with noaliasing the ranges of different pointers are disjoint; two known findings (big-endian stores lose their endianness in map entries; mixed-endian read of a stored value)"),
+ "C19": dict(level="translation_validation", engine="E1", design="DESIGN.md section 4 C19",
+   technique="SMT (z3) membership proof: for every location of either original map and all states satisfying that map's path conditions, its value equals one of the merged alternatives (vec members, nested vecs expanded); structural check of the merged location set",
+   text="Bounded translation validation over seeded synthetic map pairs (registers, sub-registers, flags, overlapping stack slots, path conditions) and 5 option/threshold settings: each original value is proven to be among the merged alternatives for ALL states (unsat) unless the merged value is top/vecw (admitted by the statement, counted). Counterexamples are replayed by evaluating the three maps on the model state.",
+   note="trusted: z3, vf/termsmt.T/expand; a mutation that makes merge return 'unknown' everywhere is within the statement and is not detected (the count of admitted tops is reported)"),
 }
 
 NA_REASON = "check not built yet (construction in progress)"
